@@ -20,6 +20,8 @@ RULE = (
     "non-trivial = old != new and old accepts at least one call shape; distinct = distinct (old,new) pair"
 )
 ASSUMPTIONS = [
+    "inherited-method rendering (sampled): the function is a method of a private class _B reachable only as S.f of a public subclass; "
+    "only 'call-breaking => some breakage on it' and 'identical => silent' are judged there",
     "CPython 3.12 call binding is the reference for 'a call binds'",
     "call shapes are limited to <=4 positional arguments and keyword names from {a,b,c,z}",
     "signatures are visited with griffe.visit into one-function modules; both modules are named 'm'",
@@ -250,6 +252,9 @@ def check_case(case) -> list[Fail]:
     old, new = parse_sig(case["old"]), parse_sig(case["new"])
     shapes = shapes_for(case)
     om, nm = accept_mask(case["old"], shapes), accept_mask(case["new"], shapes)
+    if case.get("render") == "inherited-method":
+        br = griffe_breakages(griffe_method_module(case["old"]), griffe_method_module(case["new"]))
+        return judge_method(old, new, om, nm, br, shapes)
     br = griffe_breakages(griffe_module(case["old"]), griffe_module(case["new"]))
     return judge(old, new, om, nm, br, shapes)
 
@@ -331,6 +336,73 @@ def _enumerate(ctx, sigs, shapes, space: str, select) -> None:
                 ctx.fail(f, {"space": space, "old": texts[i], "new": texts[j]})
 
 
+def griffe_method_module(text: str):
+    """The same signature as a method of a private base class, exposed only through a public subclass."""
+    import griffe
+
+    code = f"class _B:\n    def f(self{', ' + text if text else ''}): ...\n\n\nclass S(_B):\n    pass\n"
+
+    def build():
+        mc = griffe.ModulesCollection()
+        mod = griffe.visit("m", filepath=None, code=code, modules_collection=mc)
+        mc["m"] = mod
+        return mod
+
+    return call("total", build, what=f"visit method f(self, {text})")
+
+
+METHOD_PATHS = ("m._B.f", "m.S.f")
+
+
+def judge_method(old, new, old_mask: int, new_mask: int, breakages, shapes) -> list[Fail]:
+    """Clauses 1 and 3 for the inherited-method rendering: the function is public only as `m.S.f` (inherited from the
+    private `m._B`); a call-breaking change must still be reported on it, identical signatures must stay silent."""
+    old_t, new_t = render(old), render(new)
+    if old == new:
+        if breakages:
+            return [Fail("identical-silent", "reported[inherited-method]", f"identical method signatures ({old_t}) reported {breakages}")]
+        return []
+    broken = old_mask & ~new_mask
+    if broken and not [b for b in breakages if b[1] in METHOD_PATHS]:
+        bit = (broken & -broken).bit_length() - 1
+        npos, kws = shapes[bit]
+        shape = f"S().f({', '.join([str(i) for i in range(npos)] + [k + '=0' for k in kws])})"
+        return [
+            Fail(
+                "call-breaking-reported",
+                "unreported[inherited-method]",
+                f"class _B: def f(self, {old_t}) -> def f(self, {new_t}); class S(_B): call {shape} binds against old, TypeError against new; "
+                f"no breakage reported on m.S.f / m._B.f (reported: {breakages})",
+                {"call": shape},
+            )
+        ]
+    return []
+
+
+def _enumerate_methods(ctx, sigs, shapes, select) -> None:
+    """Sampled: the pair rendered as a method inherited by a public class from a private base."""
+    texts = [render(s) for s in sigs]
+    masks = [accept_mask(t, shapes) for t in texts]
+    mods = [griffe_method_module(t) for t in texts]
+    n = len(sigs)
+    for i in range(n):
+        if i % ctx.nshards != ctx.shard:
+            continue
+        if ctx.out_of_budget():
+            break
+        for j in range(n):
+            if not select(i, j):
+                continue
+            br = griffe_breakages(mods[i], mods[j])
+            fails = judge_method(sigs[i], sigs[j], masks[i], masks[j], br, shapes)
+            nontrivial = 1 if (i != j and masks[i]) else None
+            cls = "call-breaking" if masks[i] & ~masks[j] else ("identical" if i == j else "compatible")
+            ctx.case(nontrivial, ("inherited-method:" + cls,), None, enumerated=True)
+            for f in fails:
+                case = {"space": "abc3", "render": "inherited-method", "old": texts[i], "new": texts[j]}
+                ctx.fail(f, case)  # (the known multiple-values finding applies to methods exactly as to functions: same predicate)
+
+
 def run_shard(ctx) -> None:
     from vp.common.harness import derive_seed
 
@@ -338,7 +410,14 @@ def run_shard(ctx) -> None:
     if ctx.shard == 0:
         ctx.res.extra["signatures_abc3"] = len(sigs)
     # both tiers: the complete cross product of the {a,b,c} x <=3 alphabet
+    # first (cheap): the same pairs seen through inheritance (sampled 1/19 in quick, 1/5 in thorough): public class S inherits f from private _B
+    from vp.common.harness import derive_seed as _ds
+
+    salt_m = _ds(ctx.base_seed, 0, "c10m") % 1000003
+    mod_m = 19 if ctx.quick else 5
+    _enumerate_methods(ctx, sigs, CALL_SHAPES, lambda i, j: (i * 7919 + j * 104729 + salt_m) % mod_m == 0)
     _enumerate(ctx, sigs, CALL_SHAPES, "abc3", lambda i, j: True)
+    ctx.res.extra["enum_complete"] = not ctx.res.budget_exhausted
     if not ctx.quick:
         # thorough: a seeded ~1.5% sample of the 1.4e9 pairs of the {a,b,c,d} x <=4 alphabet, 192 call shapes
         big = all_signatures(("a", "b", "c", "d"), 4)
